@@ -1,5 +1,5 @@
 CONSTANTS Mode = "lvl1"
-  NCand = 9
+  NCand = 5
 INIT Init
 NEXT Next
 INVARIANT TypeOK
